@@ -178,11 +178,18 @@ pub fn main(args: &[String]) -> i32 {
     let mut total_steps = 0u64;
     let mut n_regress = 0u64;
 
+    let mut inconclusive_witnesses: Vec<serde_json::Value> = Vec::new();
     let mut handle = |r: RunResult, source: &str, violations: &mut Vec<serde_json::Value>| {
         let (v, why) = verdict(&prop, &r);
         *verdicts.entry(v.to_string()).or_insert(0) += 1;
         if v == "inconclusive" {
             *inconclusive.entry(why.clone()).or_insert(0) += 1;
+            // a panic in repository code belongs to C09, but its witness is worth keeping
+            if why == "repo-panic" && inconclusive_witnesses.len() < 3 {
+                let sig = r.panics.first().map(panics::signature).unwrap_or_else(|| "panic".into());
+                let path = save_replay(&replay_dir, "C09", &format!("seen-by-{prop}-{sig}"), r.seed, &r.actions);
+                inconclusive_witnesses.push(json!({"signature": sig, "replay": path}));
+            }
         }
         total_steps += r.n_steps as u64;
         for (k, n) in &r.monitors.coverage {
@@ -281,6 +288,7 @@ pub fn main(args: &[String]) -> i32 {
         "steps": total_steps,
         "verdicts": verdicts,
         "inconclusive": inconclusive,
+        "extra": {"witnesses of panics seen by this property's runs (judged by C09)": inconclusive_witnesses},
         "nontrivial": n_nontrivial,
         "hashes": hashes.iter().collect::<Vec<_>>(),
         "coverage": coverage,
